@@ -13,7 +13,7 @@ import (
 )
 
 var sqlNameAlpha = []string{"t", "users", "a", "b", "c", "a\"b", "a`b", "x\"; DROP TABLE t; --", "we ird", "q'q", "back\\slash",
-	"semi;colon", "dash--dash", "growth%", "margin %d", "100%s %v", "/*c*/", "\"", "`", "\"\"", "é", "A", "col 1", "sel\"ect\"", "a\"\"b", "$1", "?",
+	"semi;colon", "dash--dash", " lead", "trail ", "nb\u00a0", "\tt", " t", "t ", " ", "", "growth%", "margin %d", "100%s %v", "/*c*/", "\"", "`", "\"\"", "é", "A", "col 1", "sel\"ect\"", "a\"\"b", "$1", "?",
 	"abcdefghijklmnopqrstuvwxyzabcdefghijklmnopqrstuvwxyzabcdefghij\"z", "abcdefghijklmnopqrstuvwxyzabcdefghijklmnopqrstuvwxyzabcdefghijk`z"}
 
 type sqlwScenario struct {
@@ -97,6 +97,9 @@ func runSqlw(sc sqlwScenario, failAt int) (string, []recCall) {
 	return runSqlwCtx(sc, failAt, false)
 }
 
+// faultKindNext: the error value the next fault run injects (0: a plain driver error)
+var faultKindNext int
+
 // runSqlwNext: no call fails, but Rows.Next of the table-existence query returns an error
 func runSqlwNext(sc sqlwScenario) (string, []recCall) {
 	nextFailExists = true
@@ -106,7 +109,7 @@ func runSqlwNext(sc sqlwScenario) (string, []recCall) {
 
 // runSqlwCtx: with cancel=true the context is cancelled at call failAt (only the Context entry points)
 func runSqlwCtx(sc sqlwScenario, failAt int, cancel bool) (string, []recCall) {
-	st := &dbState{failAt: -1, exists: sc.exists}
+	st := &dbState{failAt: -1, exists: sc.exists, faultKind: faultKindNext}
 	ctx, cancelFn := context.WithCancel(context.Background())
 	defer cancelFn()
 	if cancel {
@@ -221,7 +224,13 @@ func genSqlw(r *Rng, id string, mode string) []string {
 	lines = append(lines, e.Line(id, "SQLW"))
 	if mode == "fault" {
 		for k := 0; k < len(calls); k++ {
+			// the error VALUE of the failing call varies: plain, context-wrapping, bad connection, sql sentinels
+			faultKindNext = 0
+			if r.Chance(50) {
+				faultKindNext = r.Range(1, 6)
+			}
 			st, cs := runSqlw(sc, k)
+			faultKindNext = 0
 			e := NewEnc()
 			emitSqlw(e, sc, k, st, cs)
 			lines = append(lines, e.Line(id+"f"+itoa(k), "SQLW"))
